@@ -1425,6 +1425,7 @@ class Fifo(Template[_FifoArgs]):
 
         at_end_of_context(self._impl_full_indirect)
         self._full_indirect = Signal[Bit](name=self._full_indirect_name)
+        self._full_indirect_owner = ctx
         return self._full_indirect
 
     @_intrinsic
@@ -1448,6 +1449,7 @@ class Fifo(Template[_FifoArgs]):
 
         at_end_of_context(self._impl_empty_indirect)
         self._empty_indirect = Signal[Bit](name=self._empty_indirect_name)
+        self._empty_indirect_owner = ctx
         return self._empty_indirect
 
     async def _impl_full_indirect(self):
